@@ -9,6 +9,7 @@ from sim.models.errdet import Recs, ddm_spec, eddm_spec, stepd_spec
 from sim import workload
 
 PROP = "C05"
+FORKS = True      # snapshot / restore events (core.Ctx.maybe_fork)
 LEVEL = "exploration"
 RULE = (
     "seeded piecewise-stationary (y_true,y_pred) histories (lengths 20-400, plus short binary "
@@ -145,6 +146,7 @@ def run(case, ctx):
         tol = min([TOL] + [1e-3 * a for a in pos])
     for t, (yt, yp) in enumerate(case["events"]):
         ctx.step = t
+        det = ctx.maybe_fork(det)
         if prev == "drift":
             epoch, epoch_no = [], epoch_no + 1
             recs.start_epoch()
